@@ -162,7 +162,7 @@ ASSUMPTIONS = ["innermost executor is a recording delegate; busy state = queued 
 BOUNDS_TEXT = {"quick": "9 single layers + 12 two-layer stacks, busy and idle, racing submitter, wait x cancel_futures; P<=1",
                "thorough": "P<=2"}
 MUST_REACH = {"*": ["racer-refused", "racer-accepted", "join-checked"]}
-BUDGET = {"quick": 120.0, "thorough": 900.0}
+BUDGET = {"quick": 120.0, "thorough": 600.0}
 
 
 def plan(tier, seed):
